@@ -15,6 +15,17 @@
 //! one examination than the list has items left (only reachable with same-millisecond events or
 //! taps faster than rapid-event-delay) are not determined by the statement and judged by
 //! invariants only.
+//!
+//! Lists with tap-hold items ("tap-hold inside"): list position i may be
+//! `(tap-hold tt H <tap witness i> <hold witness i>)`, so the performed position AND the decision
+//! of the item are visible as distinct keys. `model_nested` adds the tap-hold decision of appendix A
+//! to the same dance rules; in particular the eager timeout keeps counting from the processing of
+//! the previous press on every tick, also while the tap-hold item (or anything else) is undecided:
+//! a tap held d ticks and pressed again g ticks after its release with g < T <= d + g starts a NEW
+//! dance. These configurations get the exhaustive schedules (gaps additionally H-1, H) and a
+//! systematic family (holds around 0 / H / T x press distances around T and d + T); their
+//! signatures carry `tap-hold-item`, their counters the prefix `th_`. The four older lists with
+//! a layer-while-held item stay judged by invariants only.
 
 use crate::core::sim::{code_name, osc, render_hist, Ev, OutKind, Sim};
 use crate::core::{CaseOut, Check, Ctx};
@@ -43,18 +54,49 @@ struct Conf {
     r: u32,
     /// list contains a layer-while-held and a tap-hold item: judged by invariants only
     special: bool,
+    /// list positions holding a `tap-hold` item (judged by the nested model); None = plain keys
+    th: Option<Th>,
+}
+
+/// Tap-hold items inside the action list: position i (bit i of `mask`) is
+/// `(tap-hold tt h <tap witness i> <hold witness i>)`, every other position a plain witness key.
+#[derive(Clone, Copy, Debug, PartialEq, Eq)]
+struct Th {
+    h: u32,
+    tt: u32,
+    mask: u8,
 }
 
 const D_KEY: &str = "a";
 const O_KEY: &str = "b";
 const WITNESS: [&str; 4] = ["1", "2", "3", "4"];
+/// hold-action witnesses of tap-hold items at list position 1..4
+const HOLD_WITNESS: [&str; 4] = ["5", "6", "7", "8"];
+/// model key index of the hold witness of position i is HOLD_BASE + i
+const HOLD_BASE: u8 = 20;
 /// key index used for the other key in model output
 const OTHER: u8 = 9;
 
 impl Conf {
     fn text(&self) -> String {
         let form = if self.lazy { "tap-dance" } else { "tap-dance-eager" };
-        if self.special {
+        if let Some(th) = self.th {
+            let list: Vec<String> = (0..self.len)
+                .map(|i| {
+                    if th.mask >> i & 1 == 1 {
+                        format!("(tap-hold {} {} {} {})", th.tt, th.h, WITNESS[i], HOLD_WITNESS[i])
+                    } else {
+                        WITNESS[i].to_string()
+                    }
+                })
+                .collect();
+            format!(
+                "(defcfg process-unmapped-keys yes rapid-event-delay {r})\n(defsrc {D_KEY} {O_KEY})\n(deflayer base ({form} {t} ({list})) {O_KEY})\n",
+                r = self.r,
+                t = self.t,
+                list = list.join(" ")
+            )
+        } else if self.special {
             // position 2 holds a layer on which the other key is a different witness, position 3 is a
             // tap-hold
             format!(
@@ -72,10 +114,26 @@ impl Conf {
         }
     }
     fn label(&self) -> String {
-        format!("{}|L{}|T{}|R{}{}", if self.lazy { "lazy" } else { "eager" }, self.len, self.t, self.r, if self.special { "|special" } else { "" })
+        let th = match self.th {
+            Some(th) => format!("|th{:b}|H{}|tt{}", th.mask, th.h, th.tt),
+            None => String::new(),
+        };
+        format!("{}|L{}|T{}|R{}{}{}", if self.lazy { "lazy" } else { "eager" }, self.len, self.t, self.r, if self.special { "|special" } else { "" }, th)
     }
-    fn gaps(&self) -> [u32; 5] {
-        [0, 1, self.t - 1, self.t, self.t + 1]
+    /// inter-event gaps of the exhaustive schedules: the boundaries of the dance timeout and, for
+    /// lists with tap-hold items, of the tap-hold timeout
+    fn gaps(&self) -> Vec<u32> {
+        let mut g = vec![0, 1, self.t - 1, self.t, self.t + 1];
+        if let Some(th) = self.th {
+            g.push(th.h - 1);
+            g.push(th.h);
+        }
+        g.sort();
+        g.dedup();
+        g
+    }
+    fn is_th(&self, pos: usize) -> bool {
+        self.th.map(|th| th.mask >> pos & 1 == 1).unwrap_or(false)
     }
 }
 
@@ -85,14 +143,29 @@ fn configs() -> Vec<Conf> {
         for &lazy in &[true, false] {
             for len in 1..=4usize {
                 for &r in &[0u32, 5] {
-                    v.push(Conf { lazy, len, t, r, special: false });
+                    v.push(Conf { lazy, len, t, r, special: false, th: None });
                 }
             }
         }
     }
     for &t in &[3u32, 60] {
         for &lazy in &[true, false] {
-            v.push(Conf { lazy, len: 4, t, r: 5, special: true });
+            v.push(Conf { lazy, len: 4, t, r: 5, special: true, th: None });
+        }
+    }
+    // lists with tap-hold items: (dance timeout, tap-hold timeout, rapid-event-delay) with the
+    // tap-hold timeout below and above the dance timeout x which positions hold a tap-hold
+    // (len, mask) x form; tap repress timeout 0, and equal to the tap-hold timeout for two shapes
+    for &(t, h, r) in &[(3u32, 2u32, 0u32), (3, 5, 5), (60, 20, 5), (60, 75, 0)] {
+        for &(len, mask) in &[(2usize, 0b01u8), (2, 0b10), (2, 0b11), (3, 0b101), (3, 0b010)] {
+            for &lazy in &[true, false] {
+                v.push(Conf { lazy, len, t, r, special: false, th: Some(Th { h, tt: 0, mask }) });
+            }
+        }
+        for &(len, mask) in &[(2usize, 0b01u8), (2, 0b11)] {
+            for &lazy in &[true, false] {
+                v.push(Conf { lazy, len, t, r, special: false, th: Some(Th { h, tt: h, mask }) });
+            }
         }
     }
     v
@@ -138,23 +211,24 @@ impl Sched {
 }
 
 /// number of exhaustive schedules with exactly n events
-fn block(n: u32) -> u64 {
-    (1u64 << n) * 5u64.pow(n - 1)
+fn block(n: u32, ng: u64) -> u64 {
+    (1u64 << n) * ng.pow(n - 1)
 }
-fn total_exhaustive(nmax: u32) -> u64 {
-    (1..=nmax).map(block).sum()
+fn total_exhaustive(nmax: u32, ng: u64) -> u64 {
+    (1..=nmax).map(|n| block(n, ng)).sum()
 }
 
 /// Exhaustive schedule number `s`: n events, each the toggle (press if up, release if down) of the
 /// dance key or of the other key, with a gap from the set before every event but the first; keys
 /// still down after the n-th event are released afterwards.
-fn exhaustive_sched(mut s: u64, nmax: u32, gaps: &[u32; 5]) -> Option<Sched> {
+fn exhaustive_sched(mut s: u64, nmax: u32, gaps: &[u32]) -> Option<Sched> {
+    let ng = gaps.len() as u64;
     let mut n = 1;
     loop {
         if n > nmax {
             return None;
         }
-        let b = block(n);
+        let b = block(n, ng);
         if s < b {
             break;
         }
@@ -170,8 +244,8 @@ fn exhaustive_sched(mut s: u64, nmax: u32, gaps: &[u32; 5]) -> Option<Sched> {
         let gap = if i == 0 {
             0
         } else {
-            let gi = (g % 5) as usize;
-            g /= 5;
+            let gi = (g % ng) as usize;
+            g /= ng;
             gsum += gi;
             gaps[gi]
         };
@@ -194,7 +268,7 @@ fn exhaustive_sched(mut s: u64, nmax: u32, gaps: &[u32; 5]) -> Option<Sched> {
         evs.push((e, gap));
     }
     // closing releases
-    let mut cg = gaps[(gsum + n as usize) % 5];
+    let mut cg = gaps[(gsum + n as usize) % gaps.len()];
     let order: [bool; 2] = if (gsum + keybits as usize) % 2 == 0 { [false, true] } else { [true, false] };
     for is_o in order {
         if is_o && od {
@@ -270,6 +344,59 @@ fn tap_family(c: &Conf) -> Vec<Sched> {
     out
 }
 
+/// Systematic family for lists with tap-hold items: k = 1..=4 taps, every tap but the last held d
+/// ticks (d around 0, the tap-hold timeout H and the dance timeout T, so the item gives its tap or
+/// its hold action), uniform press-to-press distance from {d+1, T-1, T, T+1, T+rapid+3, d+T-1,
+/// d+T+1} - i.e. also "released less than T ago but pressed T or more ago" -, the last tap held
+/// d_last, optionally the other key tapped while the last tap is held / after its release.
+fn nested_family(c: &Conf) -> Vec<Sched> {
+    let Some(th) = c.th else { return vec![] };
+    let (t, h, r) = (c.t, th.h, c.r);
+    let mut holds = vec![0u32, 1, h - 1, h, h + 1, t - 1, t + 1];
+    holds.sort();
+    holds.dedup();
+    let mut out = vec![];
+    for k in 1..=4u32 {
+        for (di, &d) in holds.iter().enumerate() {
+            let mut pps = vec![d + 1, t - 1, t, t + 1, t + r + 3, d + t - 1, d + t + 1];
+            pps.retain(|pp| *pp > d);
+            pps.sort();
+            pps.dedup();
+            for (pi, &pp) in pps.iter().enumerate() {
+                if k == 1 && (di > 0 || pi > 0) {
+                    continue;
+                }
+                for &d_last in &holds {
+                    for intr in 0..3u32 {
+                        let mut evs: Vec<(In, u32)> = vec![];
+                        for i in 0..k {
+                            evs.push((In::PD, if i == 0 { 0 } else { pp - d }));
+                            if i < k - 1 {
+                                evs.push((In::RD, d));
+                            }
+                        }
+                        match intr {
+                            0 => evs.push((In::RD, d_last)),
+                            1 => {
+                                evs.push((In::PO, 1));
+                                evs.push((In::RO, 1));
+                                evs.push((In::RD, d_last.saturating_sub(2)));
+                            }
+                            _ => {
+                                evs.push((In::RD, d_last));
+                                evs.push((In::PO, 1));
+                                evs.push((In::RO, 1));
+                            }
+                        }
+                        out.push(Sched { evs });
+                    }
+                }
+            }
+        }
+    }
+    out
+}
+
 // ------------------------------------------------------------------------------------------------
 // reference model
 
@@ -292,6 +419,15 @@ struct ModelRes {
     end_tick: u64,
     /// smallest |press-to-press distance - T| seen between consecutive dance presses (clamped)
     min_boundary_dist: u32,
+    /// nested model: tap-hold items decided as tap / as hold / tap by the repress rule
+    th_taps: u32,
+    th_holds: u32,
+    repress_taps: u32,
+    /// nested eager model: presses of the dance key processed after ticks in which a tap-hold was
+    /// undecided since the previous press; of those, the ones that start a new dance only because
+    /// these ticks count (timeout reached with them, not reached without them)
+    eager_press_after_wait: u32,
+    eager_new_dance_only_with_wait_ticks: u32,
 }
 
 const CH_COUNTED: u8 = 0;
@@ -519,6 +655,250 @@ fn model_eager(c: &Conf, evs: &[(In, u64)]) -> ModelRes {
     res
 }
 
+/// Reference model for lists with tap-hold items, both forms. The dance part is the same as in
+/// `model_lazy` / `model_eager`: which list position is performed depends only on the presses of
+/// the dance key (timeout counted from the processing of the previous press, on EVERY tick -
+/// whatever else is pending), the other key and the list length. Performing a position that holds
+/// `(tap-hold tt H tap hold)` starts a tap-hold decision (appendix A): later events wait; the
+/// release of the dance key seen with less than H ticks elapsed gives the tap key (and the
+/// rapid-event-delay pause), H ticks without it the hold key; the key is held until the release is
+/// processed. With a tap repress timeout tt > 0, a tap-hold item performed less than tt ticks
+/// after a tap-hold item of the same key started deciding (and no other key in between, and that
+/// decision was a tap) gives the tap key at once.
+fn model_nested(c: &Conf, evs: &[(In, u64)], choices: &[u8]) -> ModelRes {
+    #[derive(Clone, Copy)]
+    enum W {
+        Dance { n: usize, timer: u64 },
+        Th { pos: usize, timer: u64, delay: u64 },
+    }
+    let th = c.th.unwrap_or(Th { h: 1, tt: 0, mask: 0 });
+    let mut res = ModelRes { min_boundary_dist: 99, ..Default::default() };
+    let t_cfg = c.t as u64;
+    let mut q: VecDeque<(In, u64)> = VecDeque::new();
+    let mut next = 0usize;
+    let mut pause = 0u32;
+    let mut waiting: Option<W> = None;
+    // eager dance: (taps so far, timer)
+    let mut eager: Option<(usize, u64)> = None;
+    // eager: ticks since the previous press of the dance key was processed / of those, ticks in
+    // which a tap-hold was undecided (statistics only)
+    let mut since_press: Option<(u64, u64, usize)> = None;
+    let mut held: Option<u8> = None;
+    let mut repress_timer = 0u64;
+    let mut tick = 0u64;
+    let last_arrival = evs.last().map(|e| e.1).unwrap_or(0);
+    // perform list position `pos`
+    macro_rules! perform {
+        ($pos:expr, $delay:expr) => {{
+            let pos: usize = $pos;
+            if c.is_th(pos) {
+                if th.tt == 0 || repress_timer == 0 {
+                    waiting = Some(W::Th { pos, timer: th.h as u64, delay: $delay });
+                    repress_timer = th.tt as u64;
+                } else {
+                    repress_timer = 0;
+                    res.repress_taps += 1;
+                    res.outs.push(MOut { at: tick, down: true, key: pos as u8 });
+                    held = Some(pos as u8);
+                }
+            } else {
+                res.outs.push(MOut { at: tick, down: true, key: pos as u8 });
+                held = Some(pos as u8);
+            }
+        }};
+    }
+    loop {
+        tick += 1;
+        while next < evs.len() && evs[next].1 < tick {
+            q.push_back(evs[next]);
+            next += 1;
+        }
+        repress_timer = repress_timer.saturating_sub(1);
+        let th_pending = matches!(waiting, Some(W::Th { .. }));
+        if let Some((e, w, _)) = since_press.as_mut() {
+            *e += 1;
+            if th_pending {
+                *w += 1;
+            }
+        }
+        if let Some((n, timer)) = eager {
+            let timer = timer.saturating_sub(1);
+            if timer == 0 || n >= c.len {
+                res.dances.push((n as u8, if n >= c.len { "exhausted" } else { "timeout" }));
+                eager = None;
+            } else {
+                eager = Some((n, timer));
+            }
+        }
+        match waiting {
+            Some(W::Th { pos, timer, delay }) => {
+                let timer = timer.saturating_sub(1);
+                let rel = q.iter().find(|e| e.0 == In::RD).map(|e| e.1);
+                if let Some(arr) = rel {
+                    let since = tick - arr;
+                    if timer > delay.saturating_sub(since) {
+                        res.outs.push(MOut { at: tick, down: true, key: pos as u8 });
+                        held = Some(pos as u8);
+                        pause = c.r;
+                        res.th_taps += 1;
+                    } else {
+                        res.outs.push(MOut { at: tick, down: true, key: HOLD_BASE + pos as u8 });
+                        held = Some(HOLD_BASE + pos as u8);
+                        repress_timer = 0;
+                        res.th_holds += 1;
+                    }
+                    waiting = None;
+                } else if timer == 0 {
+                    res.outs.push(MOut { at: tick, down: true, key: HOLD_BASE + pos as u8 });
+                    held = Some(HOLD_BASE + pos as u8);
+                    repress_timer = 0;
+                    res.th_holds += 1;
+                    waiting = None;
+                } else {
+                    waiting = Some(W::Th { pos, timer, delay });
+                }
+            }
+            Some(W::Dance { n, timer }) => {
+                let timer = timer.saturating_sub(1);
+                let expired = timer == 0;
+                let mut c_all = 1usize;
+                let mut has_o = false;
+                let mut d_after_o = 0usize;
+                for e in q.iter() {
+                    match e.0 {
+                        In::PD if !has_o => c_all += 1,
+                        In::PD => d_after_o += 1,
+                        In::PO => has_o = true,
+                        _ => {}
+                    }
+                }
+                let boundary = expired && (c_all > n || d_after_o > 0);
+                let mut choice = CH_NEWDANCE;
+                if boundary {
+                    choice = choices.get(res.boundary).copied().unwrap_or(CH_COUNTED);
+                    res.boundary += 1;
+                    if choice == CH_COUNTED && c_all == n {
+                        choice = CH_NEWDANCE;
+                    }
+                }
+                let d_after_o = d_after_o > 0;
+                let decided: Option<(usize, &'static str, bool)> = if expired && !(boundary && choice == CH_COUNTED) {
+                    Some((n, "timeout", boundary && choice == CH_SWALLOWED))
+                } else if has_o {
+                    Some((c_all, "other-key", false))
+                } else if c_all >= c.len {
+                    Some((c_all, "exhausted", false))
+                } else {
+                    None
+                };
+                match decided {
+                    Some((cnt, cause, swallow)) => {
+                        if cnt > c.len {
+                            res.undetermined = Some("more presses queued than list items");
+                        }
+                        let used = cnt.min(c.len);
+                        if swallow {
+                            let mut rel = used.saturating_sub(1);
+                            q.retain(|e| match e.0 {
+                                In::PD => false,
+                                In::RD if rel > 0 => {
+                                    rel -= 1;
+                                    false
+                                }
+                                _ => true,
+                            });
+                        } else {
+                            let mut pr = used.saturating_sub(1);
+                            let mut rel = used.saturating_sub(1);
+                            q.retain(|e| match e.0 {
+                                In::PD if pr > 0 => {
+                                    pr -= 1;
+                                    false
+                                }
+                                In::RD if rel > 0 => {
+                                    rel -= 1;
+                                    false
+                                }
+                                _ => true,
+                            });
+                            if cause == "other-key" && d_after_o && res.undetermined.is_none() {
+                                res.undetermined = Some("dance key pressed again behind the interrupting key within one examination");
+                            }
+                        }
+                        res.dances.push((cnt.min(9) as u8, cause));
+                        waiting = None;
+                        perform!(used - 1, 0u64);
+                        pause = c.r;
+                    }
+                    None => {
+                        let (n2, timer2) = if c_all > n { (c_all, t_cfg) } else { (n, timer) };
+                        waiting = Some(W::Dance { n: n2, timer: timer2 });
+                    }
+                }
+            }
+            None => {
+                if pause > 0 {
+                    pause -= 1;
+                } else if let Some((e, arr)) = q.pop_front() {
+                    match e {
+                        In::PD if c.lazy => waiting = Some(W::Dance { n: 1, timer: t_cfg }),
+                        In::PD => {
+                            if let Some((el, wt, taps)) = since_press {
+                                if wt > 0 && taps < c.len {
+                                    // the timer ran through ticks in which a tap-hold was undecided
+                                    res.eager_press_after_wait += 1;
+                                    if el >= t_cfg && el - wt < t_cfg {
+                                        res.eager_new_dance_only_with_wait_ticks += 1;
+                                    }
+                                }
+                            }
+                            let idx = match eager {
+                                Some((n, _)) => {
+                                    eager = Some((n + 1, t_cfg));
+                                    n
+                                }
+                                None => {
+                                    eager = Some((1, t_cfg));
+                                    0
+                                }
+                            };
+                            since_press = Some((0, 0, idx + 1));
+                            if let Some(k) = held.take() {
+                                res.outs.push(MOut { at: tick, down: false, key: k });
+                            }
+                            perform!(idx, tick - arr);
+                        }
+                        In::RD => {
+                            if let Some(k) = held.take() {
+                                res.outs.push(MOut { at: tick, down: false, key: k });
+                            }
+                        }
+                        In::PO => {
+                            if let Some((n, _)) = eager.take() {
+                                res.dances.push((n as u8, "other-key"));
+                            }
+                            since_press = None;
+                            repress_timer = 0;
+                            res.outs.push(MOut { at: tick, down: true, key: OTHER });
+                        }
+                        In::RO => res.outs.push(MOut { at: tick, down: false, key: OTHER }),
+                    }
+                }
+            }
+        }
+        if next >= evs.len() && q.is_empty() && waiting.is_none() && eager.is_none() && pause == 0 && tick > last_arrival {
+            break;
+        }
+        if tick > last_arrival + 100_000 {
+            res.undetermined = Some("model did not terminate");
+            break;
+        }
+    }
+    res.end_tick = tick;
+    boundary_dist(c, evs, &mut res);
+    res
+}
+
 // ------------------------------------------------------------------------------------------------
 // observation
 
@@ -527,6 +907,8 @@ struct Names {
     o: String,
     o_alt: String,
     extra: Vec<String>,
+    /// hold witnesses of tap-hold items (lists with tap-hold items only)
+    hw: Vec<String>,
 }
 
 fn names() -> Names {
@@ -535,6 +917,7 @@ fn names() -> Names {
         o: code_name(osc(O_KEY)),
         o_alt: code_name(osc("c")),
         extra: vec![code_name(osc("5"))],
+        hw: HOLD_WITNESS.iter().map(|k| code_name(osc(k))).collect(),
     }
 }
 
@@ -555,7 +938,7 @@ fn observe(sim: &mut Sim, c: &Conf, s: &Sched, model_end: u64, nm: &Names) -> (V
             In::RO => sim.release(o),
         }
     }
-    let margin = (c.t + c.r + 8) as u64 + if c.special { 40 } else { 0 };
+    let margin = (c.t + c.r + 8) as u64 + if c.special { 40 } else { 0 } + c.th.map(|th| (th.h + th.tt + c.r + 4) as u64).unwrap_or(0);
     let mut target = model_end.max(sim.now - base) + margin;
     let mut settled = false;
     for _round in 0..4 {
@@ -586,6 +969,8 @@ fn observe(sim: &mut Sim, c: &Conf, s: &Sched, model_end: u64, nm: &Names) -> (V
         };
         let key = if let Some(i) = nm.w.iter().position(|n| *n == o.name) {
             i as u8
+        } else if let (true, Some(i)) = (c.th.is_some(), nm.hw.iter().position(|n| *n == o.name)) {
+            HOLD_BASE + i as u8
         } else if o.name == nm.o {
             OTHER
         } else if o.name == nm.o_alt {
@@ -619,6 +1004,7 @@ fn render_outs(v: &[MOut], nm: &Names) -> Vec<String> {
         .map(|o| {
             let n = match o.key {
                 k if (k as usize) < nm.w.len() => nm.w[k as usize].clone(),
+                k if k >= HOLD_BASE && ((k - HOLD_BASE) as usize) < nm.hw.len() => nm.hw[(k - HOLD_BASE) as usize].clone(),
                 OTHER => nm.o.clone(),
                 10 => nm.o_alt.clone(),
                 50 => nm.extra[0].clone(),
@@ -671,7 +1057,8 @@ fn invariants(c: &Conf, s: &Sched, obs: &[MOut], settled: bool) -> Option<(&'sta
         if o.key >= 200 {
             return Some(("unexpected-output", "an output that is neither a list action nor the other key (or a re-press)".into()));
         }
-        if !c.special && (o.key as usize) >= c.len {
+        let in_list = (o.key as usize) < c.len || (o.key >= HOLD_BASE && c.is_th((o.key - HOLD_BASE) as usize) && ((o.key - HOLD_BASE) as usize) < c.len);
+        if !c.special && !in_list {
             return Some(("unexpected-output", "a key that is not in the action list".into()));
         }
         if o.down {
@@ -702,7 +1089,16 @@ struct Judged {
 
 fn judge(sim: &mut Sim, c: &Conf, s: &Sched, nm: &Names) -> Judged {
     let arr = s.arrivals();
-    let base_model = if c.lazy { model_lazy(c, &arr, &[]) } else { model_eager(c, &arr) };
+    let run_model = |ch: &[u8]| {
+        if c.th.is_some() {
+            model_nested(c, &arr, ch)
+        } else if c.lazy {
+            model_lazy(c, &arr, ch)
+        } else {
+            model_eager(c, &arr)
+        }
+    };
+    let base_model = run_model(&[]);
     // alternatives at boundary decisions: explore the tree of choices (a choice can create or
     // remove later boundary situations)
     let mut alts: Vec<(Vec<u8>, ModelRes)> = vec![];
@@ -711,7 +1107,7 @@ fn judge(sim: &mut Sim, c: &Conf, s: &Sched, nm: &Names) -> Judged {
     } else {
         let mut stack: Vec<Vec<u8>> = vec![vec![]];
         while let Some(ch) = stack.pop() {
-            let m = model_lazy(c, &arr, &ch);
+            let m = run_model(&ch);
             if m.boundary > ch.len() && ch.len() < 6 {
                 for x in [CH_SWALLOWED, CH_NEWDANCE, CH_COUNTED] {
                     let mut ch2 = ch.clone();
@@ -726,6 +1122,8 @@ fn judge(sim: &mut Sim, c: &Conf, s: &Sched, nm: &Names) -> Judged {
     let end = alts.iter().map(|(_, m)| m.end_tick).max().unwrap_or(base_model.end_tick);
     let (obs, raw, settled) = observe(sim, c, s, end, nm);
     let form = if c.lazy { "lazy" } else { "eager" };
+    // lists with tap-hold items have signatures of their own
+    let form = if c.th.is_some() { format!("{form}:tap-hold-item") } else { form.to_string() };
     let mut j = Judged { sig: None, expected: base_model.outs.clone(), observed: obs.clone(), raw, model: base_model.clone(), swallowed_match: false };
     if let Some((k, what)) = invariants(c, s, &obs, settled) {
         j.sig = Some((format!("C17:{form}:invariant:{k}"), what));
@@ -749,7 +1147,7 @@ fn judge(sim: &mut Sim, c: &Conf, s: &Sched, nm: &Names) -> Judged {
         j.expected = alts.iter().find(|(ch, _)| !ch.contains(&CH_SWALLOWED)).map(|x| x.1.outs.clone()).unwrap_or_default();
         let _ = m;
         j.sig = Some((
-            "C17:lazy:press-at-exact-timeout-swallowed".into(),
+            if c.th.is_some() { "C17:lazy:tap-hold-item:press-at-exact-timeout-swallowed".into() } else { "C17:lazy:press-at-exact-timeout-swallowed".into() },
             "a press of the dance key arriving exactly T ticks after the previous one is neither counted nor starts a new dance: it is dropped".into(),
         ));
         return j;
@@ -760,12 +1158,17 @@ fn judge(sim: &mut Sim, c: &Conf, s: &Sched, nm: &Names) -> Judged {
         "timing"
     } else {
         let m = accepted[0];
-        let acts = |v: &[MOut]| v.iter().filter(|o| o.down && o.key < OTHER).map(|o| o.key).collect::<Vec<_>>();
+        let is_act = |k: u8| k < OTHER || (HOLD_BASE..HOLD_BASE + 4).contains(&k);
+        let acts = |v: &[MOut]| v.iter().filter(|o| o.down && is_act(o.key)).map(|o| o.key).collect::<Vec<_>>();
+        let pos = |v: &[u8]| v.iter().map(|k| if *k >= HOLD_BASE { *k - HOLD_BASE } else { *k }).collect::<Vec<_>>();
         let (ea, oa) = (acts(&m.outs), acts(&obs));
         if ea.len() != oa.len() {
             "activation-count"
-        } else if ea != oa {
+        } else if pos(&ea) != pos(&oa) {
             "wrong-action"
+        } else if ea != oa {
+            // the right list position, but the tap-hold item there gave its other action
+            "tap-hold-item-decision"
         } else {
             "order-or-hold"
         }
@@ -777,6 +1180,7 @@ fn judge(sim: &mut Sim, c: &Conf, s: &Sched, nm: &Names) -> Judged {
             "timing" => "the expected keys in the expected order, but in different ticks".to_string(),
             "activation-count" => "number of performed actions differs from the model".to_string(),
             "wrong-action" => "a different list position was performed than the tap count selects".to_string(),
+            "tap-hold-item-decision" => "the list position the tap count selects was performed, but its tap-hold item gave the hold action for a tap or the tap action for a hold".to_string(),
             _ => "the chosen action is not held until the final release / the other key is not processed after it".to_string(),
         },
     ));
@@ -790,7 +1194,7 @@ const CHUNK_Q: u64 = 4096;
 const CHUNK_T: u64 = 16384;
 
 fn nmax(ctx: &Ctx, c: &Conf) -> u32 {
-    if c.special {
+    if c.special || c.th.is_some() {
         ctx.tier.sel(5, 6)
     } else {
         match (ctx.tier, c.t) {
@@ -807,7 +1211,7 @@ fn case_layout(ctx: &Ctx) -> Vec<(usize, u64, u64)> {
     let chunk = ctx.tier.sel(CHUNK_Q, CHUNK_T);
     let mut v = vec![];
     for (ci, c) in configs().iter().enumerate() {
-        let tot = total_exhaustive(nmax(ctx, c));
+        let tot = total_exhaustive(nmax(ctx, c), c.gaps().len() as u64);
         let mut s = 0;
         while s < tot {
             v.push((ci, s, (s + chunk).min(tot)));
@@ -849,12 +1253,22 @@ impl Check for C17Check {
         let gaps = c.gaps();
         let mut scheds: Vec<Sched> = (a..b).filter_map(|s| exhaustive_sched(s, n_max, &gaps)).collect();
         out.count("schedules_exhaustive", scheds.len() as u64);
-        if a == 0 && !c.special {
+        if a == 0 && c.th.is_some() {
+            let fam = nested_family(c);
+            out.count("schedules_tap_hold_item_family", fam.len() as u64);
+            scheds.extend(fam);
+        } else if a == 0 && !c.special {
             let fam = tap_family(c);
             out.count("schedules_tap_family", fam.len() as u64);
             scheds.extend(fam);
         }
-        let form = if c.lazy { "lazy" } else { "eager" };
+        // counters of lists with tap-hold items are kept apart (prefix th_)
+        let form = match (c.th.is_some(), c.lazy) {
+            (false, true) => "lazy",
+            (false, false) => "eager",
+            (true, true) => "th_lazy",
+            (true, false) => "th_eager",
+        };
         let mut prev: Option<Sched> = None;
         let mut reported: std::collections::BTreeSet<String> = Default::default();
         for s in scheds {
@@ -924,7 +1338,16 @@ impl Check for C17Check {
                     out.inc(&format!("{form}_schedules_with_press_distance_T{}", match j.model.min_boundary_dist { 0 => "", _ => "±1" }));
                 }
                 if j.model.boundary > 0 {
-                    out.inc("lazy_boundary_decisions");
+                    out.inc(if c.th.is_some() { "th_lazy_boundary_decisions" } else { "lazy_boundary_decisions" });
+                }
+                if c.th.is_some() {
+                    out.count(&format!("{form}_items_decided_tap"), j.model.th_taps as u64);
+                    out.count(&format!("{form}_items_decided_hold"), j.model.th_holds as u64);
+                    out.count(&format!("{form}_items_tap_by_repress"), j.model.repress_taps as u64);
+                    if !c.lazy {
+                        out.count("th_eager_presses_after_undecided_ticks", j.model.eager_press_after_wait as u64);
+                        out.count("th_eager_new_dance_only_because_undecided_ticks_count", j.model.eager_new_dance_only_with_wait_ticks as u64);
+                    }
                 }
                 if !j.model.dances.is_empty() {
                     let d: Vec<String> = j.model.dances.iter().map(|(n, c)| format!("{n}{}", &c[..1])).collect();
@@ -963,14 +1386,16 @@ impl Check for C17Check {
         out
     }
     fn rule(&self) -> String {
-        "case = one configuration (action lists of 1-4 distinct witness keys x lazy `tap-dance` / `tap-dance-eager` x timeout T in {3,60} x rapid-event-delay {0,5}; plus 4 configurations whose list holds a layer-while-held and a tap-hold item) and a chunk of the exhaustive schedule space: every sequence of up to N events (quick N=6; thorough N=8 for T=3, N=7 for T=60; 5/6 for the special lists), each event the toggle of the dance key or of one other key, with every combination of inter-event gaps from {0,1,T-1,T,T+1}, keys still down released afterwards; plus a systematic family of 1-6 taps (holds {0,1,T-1}, press distances {2,T-1,T,T+1,T+rapid+3}, optional interrupting tap before/after the final release). Every schedule runs on the real code and is compared tick by tick with the reference model (key, down/up, tick) unless the statement does not determine it (more presses queued within one examination than list items; special list items), in which case only the invariants are judged. Non-trivial = a schedule with at least one decided dance judged by the model; distinct = (configuration, sequence of (tap count, ending cause), interrupting key present).".into()
+        "case = one configuration (action lists of 1-4 distinct witness keys x lazy `tap-dance` / `tap-dance-eager` x timeout T in {3,60} x rapid-event-delay {0,5}; plus 4 configurations whose list holds a layer-while-held and a tap-hold item, judged by invariants only; plus 56 configurations whose list holds tap-hold items with distinct tap and hold witness keys: (T, tap-hold timeout H, rapid-event-delay) in {(3,2,0),(3,5,5),(60,20,5),(60,75,0)} x tap-hold positions {10,01,11,101,010} with tap repress timeout 0 and {10,11} with tap repress timeout H x lazy/eager, judged by the model like the plain lists, with N=5/6, gaps additionally {H-1,H}, and instead of the tap family a family of 1-4 taps with holds {0,1,H-1,H,H+1,T-1,T+1}, press distances {d+1,T-1,T,T+1,T+rapid+3,d+T-1,d+T+1}, last hold varied separately, optional interrupting tap) and a chunk of the exhaustive schedule space: every sequence of up to N events (quick N=6; thorough N=8 for T=3, N=7 for T=60; 5/6 for the special lists), each event the toggle of the dance key or of one other key, with every combination of inter-event gaps from {0,1,T-1,T,T+1}, keys still down released afterwards; plus a systematic family of 1-6 taps (holds {0,1,T-1}, press distances {2,T-1,T,T+1,T+rapid+3}, optional interrupting tap before/after the final release). Every schedule runs on the real code and is compared tick by tick with the reference model (key, down/up, tick) unless the statement does not determine it (more presses queued within one examination than list items; special list items), in which case only the invariants are judged. Non-trivial = a schedule with at least one decided dance judged by the model; distinct = (configuration, sequence of (tap count, ending cause), interrupting key present).".into()
     }
     fn assumptions(&self) -> Vec<String> {
         vec![
             "processing discipline as in DESIGN appendix A: one queued event per tick in arrival order, a lazy decision pauses event processing for rapid-event-delay ticks; the timeout of a dance counts from the tick its first press is processed".into(),
             "a press first seen in the tick the lazy timeout expires (distance exactly T) may be counted or start a new dance; both are accepted".into(),
             "schedules where more presses of the dance key are visible in one examination than the list has items left, or where the dance key is pressed again behind the interrupting key within one examination, are judged by invariants only (needs same-millisecond events or taps faster than rapid-event-delay)".into(),
-            "lists containing layer-while-held / tap-hold items are judged by invariants only (nothing stuck, other key neither lost nor reordered nor early, no unexpected output)".into(),
+            "lists containing a layer-while-held item are judged by invariants only (nothing stuck, other key neither lost nor reordered nor early, no unexpected output)".into(),
+            "lists with tap-hold items: which position is performed follows the same dance rules as for plain keys (the timeout counts every tick from the processing of the previous press of the dance key, also while a tap-hold decision is pending and later events wait); the item performed decides as a plain tap-hold does (appendix A: tap iff the release arrives less than H after the press, tap action followed by the rapid-event-delay pause, hold action at H; a press within the tap repress timeout of the start of a previous tap decision of the same key, with no other key in between, gives the tap action at once). An item performed by a LAZY dance starts deciding in the tick the dance is decided - the guide does not say whether the time the key was held before should count; a different decision at the right position has its own signature (tap-hold-item-decision)".into(),
+            "only plain `tap-hold` items are modelled (not tap-hold-press / -release variants, nested tap-dances or chords); the interrupting key is a plain key".into(),
             "schedules are physically consistent (press only when up, release only when down) and many schedules run on one kanata instance separated by idle periods; a mismatch is re-judged on a fresh instance before it is reported".into(),
         ]
     }
@@ -989,6 +1414,24 @@ impl Check for C17Check {
             ("lazy_dances_with_taps_4", 10),
             ("eager_dances_with_taps_4", 10),
             ("lazy_boundary_decisions", 100),
+            // lists with tap-hold items
+            ("judged_by_model_th_lazy", 500_000),
+            ("judged_by_model_th_eager", 500_000),
+            ("th_lazy_items_decided_tap", 100_000),
+            ("th_lazy_items_decided_hold", 50_000),
+            ("th_eager_items_decided_tap", 100_000),
+            ("th_eager_items_decided_hold", 100_000),
+            ("th_lazy_items_tap_by_repress", 1_000),
+            ("th_eager_items_tap_by_repress", 1_000),
+            ("th_lazy_dances_with_taps_2", 10_000),
+            ("th_eager_dances_with_taps_2", 10_000),
+            ("th_lazy_dances_with_taps_3", 500),
+            ("th_eager_dances_with_taps_3", 500),
+            ("th_lazy_boundary_decisions", 1_000),
+            // the eager timeout observed across ticks in which a tap-hold item was undecided, and
+            // presses that start a new dance only because those ticks count
+            ("th_eager_presses_after_undecided_ticks", 50_000),
+            ("th_eager_new_dance_only_because_undecided_ticks_count", 10_000),
         ]
     }
     fn exhaustive(&self, _ctx: &Ctx) -> bool {
